@@ -30,8 +30,8 @@ LEVEL_TEXT = ("Exploration: the proxy is five lines, but which object it returns
               "pickled (protocols 2-5). Shortcuts are compared by identity with an explicit walk on interleaved message sets.")
 LEVEL_NOTE = "Trusts ref_decl and the explicit walk; properties other than the documented shortcuts are not judged."
 DESIGN_REF = "DESIGN.md §3 C16"
-MIN_COUNTERS = {"quick": {"flat_reads_judged": 10000, "misses_judged": 20000, "copies_judged": 6000, "shortcuts_judged": 1500, "classes": 380, "statements_shortcut_members": 300},
-                "thorough": {"flat_reads_judged": 150000, "misses_judged": 400000, "copies_judged": 150000, "shortcuts_judged": 20000, "classes": 380, "statements_shortcut_members": 10000}}
+MIN_COUNTERS = {"quick": {"flat_reads_judged": 10000, "misses_judged": 20000, "copies_judged": 12000, "copies_of_instances_read_from_text": 1000, "shortcuts_judged": 1500, "classes": 380, "statements_shortcut_members": 300},
+                "thorough": {"flat_reads_judged": 150000, "misses_judged": 400000, "copies_judged": 300000, "copies_of_instances_read_from_text": 25000, "shortcuts_judged": 20000, "classes": 380, "statements_shortcut_members": 10000}}
 
 UNDEFINED = ["nosuchattr", "zz_undefined", "statementz", "__deepcopy__x", "__copy__", "__deepcopy__", "__getnewargs__", "__getnewargs_ex__", "__setstate__",
              "__reduce_ex__zz", "_private", "__wrapped__", "__fspath__", "__index__", "__len__zz", "__html__", "_ipython_canary_method_should_not_exist_"]
@@ -146,6 +146,18 @@ def check_misses(ctx, inst, rng, case):
 
 
 def check_copies(ctx, inst, case):
+    _check_copies(ctx, inst, case)
+    # the same model as the library's own reader builds it (values converted from text carry the library's own tzinfo etc.)
+    try:
+        read = type(inst).from_etree(inst.to_etree())
+    except Exception:
+        ctx.count("reread_failed_not_judged")  # C01's business
+        return
+    ctx.count("copies_of_instances_read_from_text")
+    _check_copies(ctx, read, dict(case, read_from_text=True))
+
+
+def _check_copies(ctx, inst, case):
     s0 = modelwalk.snap(inst, exact=True)
     ops = [("copy", copy.copy), ("deepcopy", copy.deepcopy)] + [(f"pickle{p}", (lambda x, p=p: pickle.loads(pickle.dumps(x, protocol=p)))) for p in (2, 3, 4, 5)]
     for opname, fn in ops:
